@@ -1219,6 +1219,8 @@ class If(BeginStatement):
             newitem = self.get_item()
         else:
             newitem = item.copy(line, apply_map=True)
+            # The label belongs to the IF statement, not to the action statement.
+            newitem.label = None
         newline = newitem.get_line()
         for cls in classes:
             if cls.match(newline):
